@@ -1,7 +1,7 @@
 SPECIFICATION Spec
 CONSTANTS
   NGood = 6
-  NFail = 30
+  NFail = 32
   MaxLen = 7
   MinFail = 1
 CONSTRAINT Emit
